@@ -461,6 +461,11 @@ func VerifyBlob(ctx context.Context, blobVerifier BlobVerifier, blobReader io.Re
 		return ocispec.Descriptor{}, nil, err
 	}
 
+	if vo.EnvelopeContent == nil {
+		// verification was skipped by the trust policy: there is no verified
+		// payload to take the descriptor from
+		return ocispec.Descriptor{}, vo, nil
+	}
 	var payload envelope.Payload
 	if err = json.Unmarshal(vo.EnvelopeContent.Payload.Content, &payload); err != nil {
 		return ocispec.Descriptor{}, nil, err
